@@ -272,12 +272,12 @@ Theorem okx_clean : forall n fuel, fuel <= n -> forall e s a x, okx D e -> wf s 
 Proof.
   induction n as [|n IH]; intros fuel Hle e s a x O W I H; (destruct fuel as [|fuel]; [discriminate|]); [lia|].
   assert (Hf : fuel <= n) by lia.
-  destruct e; cbn [vm_expr okx] in *; try (eapply safe_clean; eauto; reflexivity).
+  destruct e; cbn [vm_expr okx] in O, H; try (refine (safe_clean _ _ _ _ _ _ W I H); reflexivity).
   - (* OIdent *)
     destruct O as (ND & NP & NA & Dn). unfold vm_call in H.
     repeat match type of H with
     | exec _ _ _ (if str_eqb n0 ?k then _ else _) _ = _ => destruct (str_eqb n0 k) eqn:?; try discriminate
-    end; try (eapply safe_clean; eauto; reflexivity).
+    end; try (refine (safe_clean _ _ _ _ _ _ W I H); reflexivity).
     + (* EOI *) destruct (prule_err _ _ _ _ _ H W) as [->|(s2 & s3 & X & S2 & W2 & S3)]; [reflexivity|].
       rewrite S3, <- S2. f_equal. eapply (safe_prog_err (PPrim MEoi) _ s2 a s3 eq_refl W2); [rewrite S2; exact I|exact X].
     + (* a rule or a Unicode property *)
@@ -303,7 +303,7 @@ Proof.
                   rewrite S3, <- S2; destruct f1 as [|f2]; [discriminate|]; eapply Wrap2; eauto; [lia|now rewrite S2]).
         all: try (destruct (patomic_err _ _ _ _ _ H W) as [->|(s2 & s3 & X & S2 & W2 & S3)]; [reflexivity|];
                   rewrite S3, <- S2; destruct f1 as [|f2]; [discriminate|]; eapply Wrap1; eauto; [lia|now rewrite S2]).
-      * destruct (uranges n0); [eapply safe_clean; eauto; reflexivity|].
+      * destruct (uranges n0); [refine (safe_clean _ _ _ _ _ _ W I H); reflexivity|].
         cbn [exec] in H. unfold vm_env in H. rewrite (proj2 (nth_error_None RG (S (List.length RG)))) in H by lia. discriminate.
   - (* OPosPred *) eapply lookahead_restores; eauto.
   - (* ONegPred *) eapply lookahead_restores; eauto.
